@@ -125,8 +125,10 @@ def native_replay(scratch, harness_dir, meta, profiles=("dev", "release"), varia
     fn = meta["harness"].split("::")[-1]
     with open(os.path.join(harness_dir, "common.rs")) as f:
         common = f.read()
-    with open(os.path.join(harness_dir, meta["source"])) as f:
-        src = f.read()
+    src = ""
+    for part in meta["source"].split("+"):
+        with open(os.path.join(harness_dir, part)) as f:
+            src += f.read() + "\n"
     if variants is None:
         vtext = meta["vals_text"]
     else:
